@@ -43,9 +43,10 @@ RULE = (
     ' Round 11: `enter_task` / `exit_task` (the context is entered / left by a short-lived task of its own); `late_change` (the registry changes while a slow disconnect is under way: the file equals the registry when the context has been left).'
     ' Round 10: `traffic` (that task handles a message that changes nothing every `traffic` virtual seconds while the deadlines are checked).'
     ' Round 12: `mutate=clear`; `eager_tasks`; `between_edit`; deadline checks re-read while a save is rewriting the file.'
+    ' Round 13: `file_name`; `threads` kind (real worker threads, off the virtual loop).'
 )
 ASSUMPTIONS = [
-    "threads are replaced by an inline executor: outcomes are the same at file-operation granularity, thread races inside aiofiles are not explored",
+    "on the virtual loop threads are replaced by an inline executor: outcomes are the same at file-operation granularity; thread races are only explored by the three `threads` cases (real loop, real worker threads, a registry that is slow to read off the loop thread)",
     "three loop iterations of grace after the context exit before asyncio.all_tasks() is inspected",
 ]
 DELETABLE = ()
